@@ -40,8 +40,28 @@ const K_OTHER: usize = 1;
 const K_JWKS: usize = 2;
 /// a JWKS entry that is not an Ed25519 key (kty EC): `EdDSAVerifier::new` refuses it
 const K_EC: usize = 3;
+/// second JWKS entry of kid `dup-key` (the first one is K_OTHER): `JwksKeyStore::do_fetch` lets the later entry win
+const K_DUP: usize = 4;
+/// OKP/Ed25519 JWKS entry declared `"use": "enc"`
+const K_ENC: usize = 5;
+/// OKP/Ed25519 JWKS entry declared `"alg": "ES256"`
+const K_MIS: usize = 6;
+const N_KEYS: usize = 7;
 const JWKS_KID: &str = "ssr-key-1";
 const JWKS_EC_KID: &str = "ec-key";
+const JWKS_DUP_KID: &str = "dup-key";
+const JWKS_ENC_KID: &str = "enc-key";
+const JWKS_MIS_KID: &str = "mislabelled-key";
+/// the served JWKS document in order: (kid, key id)
+const JWKS_DOC: &[(Option<&str>, usize)] = &[
+    (Some(JWKS_KID), K_JWKS),
+    (Some(JWKS_EC_KID), K_EC),
+    (None, K_OTHER),
+    (Some(JWKS_DUP_KID), K_OTHER),
+    (Some(JWKS_DUP_KID), K_DUP),
+    (Some(JWKS_ENC_KID), K_ENC),
+    (Some(JWKS_MIS_KID), K_MIS),
+];
 
 // ------------------------------------------------------------------------------------------------
 // recipes
@@ -516,7 +536,8 @@ fn impl_label(r: &Result<Result<AnyClaims, SnapTokenVerifyError>, String>) -> St
 
 fn model_request(p: &Parsed, jwks: bool, now: u64) -> String {
     let jw = if jwks {
-        format!("J{}={};{}={}", hex(JWKS_KID.as_bytes()), K_JWKS, hex(JWKS_EC_KID.as_bytes()), K_EC)
+        // the document as served, in order; what the store makes of it is the model's `storeOfDocument`
+        format!("J{}", JWKS_DOC.iter().map(|(k, id)| format!("{}={id}", k.map(|k| hex(k.as_bytes())).unwrap_or("~".into()))).collect::<Vec<_>>().join(";"))
     } else {
         "J-".to_string()
     };
@@ -543,7 +564,7 @@ fn model_request(p: &Parsed, jwks: bool, now: u64) -> String {
             s
         }
     };
-    format!("v {now} K{K_STATIC} E0,1,2 {jw} A{} {kid} {sig} {pay}", hex(p.alg.as_bytes()))
+    format!("v {now} K{K_STATIC} E0,1,2,4,5,6 {jw} A{} {kid} {sig} {pay}", hex(p.alg.as_bytes()))
 }
 
 fn last<'a>(ms: &'a [(String, JV)], k: &str) -> Option<&'a JV> {
@@ -561,13 +582,8 @@ fn spec_violations(p: &Option<Parsed>, jwks: bool, now: u64, leeway: u64) -> Vec
     }
     let trusted: Option<usize> = match (&p.kid, jwks) {
         (Some(k), true) => {
-            if k == JWKS_KID {
-                Some(K_JWKS)
-            } else if k == JWKS_EC_KID {
-                Some(K_EC)
-            } else {
-                None
-            }
+            // "the JWKS-resolved key": the LAST entry of the served document with that kid
+            JWKS_DOC.iter().rev().find(|(dk, _)| *dk == Some(k.as_str())).map(|(_, id)| *id)
         }
         _ => Some(K_STATIC),
     };
@@ -1069,6 +1085,19 @@ fn systematic(rng: &mut Rng, with_jwks: bool, thorough: bool, l: i64) -> Vec<Cas
             out.push(c);
         }
     }
+    // JWKS documents: duplicate kid (the later entry is the resolved key), `use: enc`, OKP key labelled ES256
+    if with_jwks {
+        if let Some(b) = bs.iter().find(|b| b.name == "v1+kid(jwks)") {
+            for (kid, keys) in [(JWKS_DUP_KID, vec![K_OTHER, K_DUP, K_STATIC]), (JWKS_ENC_KID, vec![K_ENC, K_STATIC]), (JWKS_MIS_KID, vec![K_MIS, K_STATIC]), (JWKS_EC_KID, vec![K_STATIC, K_JWKS])] {
+                for k in keys {
+                    let mut c = b.case(&format!("jwks kid={kid} signed-by-key-{k}"));
+                    c.hdr = Hdr::Obj(set(&b.hdr, "kid", q(kid)));
+                    c.sign = Sign::Key(k);
+                    out.push(c);
+                }
+            }
+        }
+    }
     for b in &bs {
         out.push(b.case("valid"));
         // ---- header: alg --------------------------------------------------------------------
@@ -1420,13 +1449,18 @@ fn start_e2e(env: &Env) -> Result<E2e, String> {
 
 /// POST RegisterSnapTunIdentity with `Authorization: Bearer <token>`; returns the HTTP status (0 = the
 /// connection was closed without a response) and the body text
-fn e2e_register(env: &Env, e: &E2e, token: &str) -> (u16, String) {
+fn e2e_register(env: &Env, e: &E2e, auth_field: Option<&str>) -> (u16, String) {
     use prost::Message;
     use tokio::io::{AsyncReadExt, AsyncWriteExt};
     let req = snap_control::proto::anapaya::snap::v1::RegisterSnapTunIdentityRequest { initiator_static_x25519: vec![7u8; 32], psk_share: vec![0u8; 32] };
     let body = req.encode_to_vec();
+    // `auth_field` is everything between `authorization:` and CRLF (its own leading / trailing blanks included)
+    let auth = match auth_field {
+        Some(f) => format!("authorization:{f}\r\n"),
+        None => String::new(),
+    };
     let head = format!(
-        "POST /anapaya.snap.v1.SnapControl/RegisterSnapTunIdentity HTTP/1.1\r\nhost: snap\r\nauthorization: Bearer {token}\r\ncontent-type: application/proto\r\ncontent-length: {}\r\nconnection: close\r\n\r\n",
+        "POST /anapaya.snap.v1.SnapControl/RegisterSnapTunIdentity HTTP/1.1\r\nhost: snap\r\n{auth}content-type: application/proto\r\ncontent-length: {}\r\nconnection: close\r\n\r\n",
         body.len()
     );
     let addr = e.addr;
@@ -1447,11 +1481,35 @@ fn e2e_register(env: &Env, e: &E2e, token: &str) -> (u16, String) {
     })
 }
 
+/// spellings of the `Authorization` header field around a token (`extract_bearer_token` takes the text after the
+/// exact prefix `Bearer ` verbatim; the HTTP layer strips blanks around the field value before that)
+const AUTH_SHAPES: &[(&str, &str, &str)] = &[
+    ("plain", " Bearer ", ""),
+    ("no blank after colon", "Bearer ", ""),
+    ("blanks around the value", "  \t Bearer ", " \t "),
+    ("lower-case scheme", " bearer ", ""),
+    ("upper-case scheme", " BEARER ", ""),
+    ("two blanks after the scheme", " Bearer  ", ""),
+    ("tab after the scheme", " Bearer\t", ""),
+    ("no blank after the scheme", " Bearer", ""),
+    ("no scheme", " ", ""),
+    ("Basic scheme", " Basic ", ""),
+    ("scheme twice", " Bearer Bearer ", ""),
+    ("token then blank and text", " Bearer ", " x"),
+    ("token=", " Bearer token=", ""),
+    ("quoted token", " Bearer \"", "\""),
+];
+
+/// what the HTTP layer hands to the middleware as header value: blanks (SP / HTAB) around the field content removed
+fn ows_trim(f: &str) -> &str {
+    f.trim_matches(|c| c == ' ' || c == '\t')
+}
+
 /// one recipe through the real router; the model's verdict + lifetime predicts the status:
 /// refused -> 401 (AuthMiddleware); accepted and exp in the future -> 200 (registered); accepted and exp
 /// already past (inside the leeway) -> 400 "expiration time is in the past"; accepted and exp beyond
 /// SystemTime -> the handler panics (no response)
-fn run_e2e(c: &Case, env: &Env, e: &E2e, lean: &mut Lean, rep: &mut Report) {
+fn run_e2e(c: &Case, shape: Option<usize>, env: &Env, e: &E2e, lean: &mut Lean, rep: &mut Report) {
     for _ in 0..4 {
         let t0 = now_secs();
         let tok = render(c, env, t0);
@@ -1459,11 +1517,37 @@ fn run_e2e(c: &Case, env: &Env, e: &E2e, lean: &mut Lean, rep: &mut Report) {
             rep.hit("e2e skipped (token is not a visible-ASCII header value)");
             return;
         }
-        let (status, body) = e2e_register(env, e, &tok);
+        let field = shape.map(|i| format!("{}{tok}{}", AUTH_SHAPES[i].1, AUTH_SHAPES[i].2));
+        let (status, body) = e2e_register(env, e, field.as_deref());
         let t1 = now_secs();
         if t1 != t0 {
             continue;
         }
+        // the string the verifier gets: model of `extract_bearer_token` on the header value
+        let presented: Option<String> = match &field {
+            None => None,
+            Some(f) => {
+                let v = ows_trim(f);
+                if lean.enabled {
+                    let a = lean.ask(&format!("bearer {}", hex(v.as_bytes())));
+                    a.strip_prefix("some ").map(|h| if h == "-" { String::new() } else { String::from_utf8(unhex(h).unwrap_or_default()).unwrap_or_default() })
+                } else {
+                    v.strip_prefix("Bearer ").map(|x| x.to_string())
+                }
+            }
+        };
+        let label = shape.map(|i| AUTH_SHAPES[i].0).unwrap_or("no Authorization header");
+        if shape != Some(0) {
+            rep.hit(&format!("e2e header shape: {label} -> http {status}"));
+        }
+        let Some(tok) = presented else {
+            // no bearer token at all: 401 whatever the token is
+            rep.traces += 1;
+            if lean.enabled && status != 401 {
+                rep.disagree("e2e-router", json!({"kind": c.kind, "recipe": serde_json::to_value(c).unwrap(), "authorization": field, "now": t0, "body": body}), &format!("http {status}"), "no bearer token => http [401]");
+            }
+            return;
+        };
         let parsed = parse_token(&tok, env);
         let model = match &parsed {
             None => "err header".to_string(),
@@ -1503,7 +1587,7 @@ fn run_e2e(c: &Case, env: &Env, e: &E2e, lean: &mut Lean, rep: &mut Report) {
 
 fn make_env(seed: u64, const_static_key: bool, notes: &mut Vec<String>) -> Env {
     let mut krng = Rng::new(seed ^ 0xC10);
-    let sk: Vec<SigningKey> = (0..3)
+    let sk: Vec<SigningKey> = (0..N_KEYS)
         .map(|_| {
             let b = krng.bytes(32);
             SigningKey::from_bytes(&b.try_into().unwrap())
@@ -1522,7 +1606,11 @@ fn make_env(seed: u64, const_static_key: bool, notes: &mut Vec<String>) -> Env {
     let jwks_body = json!({"keys": [
         {"kid": JWKS_KID, "kty": "OKP", "use": "sig", "alg": "EdDSA", "crv": "Ed25519", "x": b64(vk[K_JWKS].as_bytes())},
         {"kid": JWKS_EC_KID, "kty": "EC", "use": "sig", "alg": "ES256", "crv": "P-256", "x": b64(&krng.bytes(32)), "y": b64(&krng.bytes(32))},
-        {"kty": "OKP", "use": "sig", "alg": "EdDSA", "crv": "Ed25519", "x": b64(vk[K_OTHER].as_bytes())}
+        {"kty": "OKP", "use": "sig", "alg": "EdDSA", "crv": "Ed25519", "x": b64(vk[K_OTHER].as_bytes())},
+        {"kid": JWKS_DUP_KID, "kty": "OKP", "use": "sig", "alg": "EdDSA", "crv": "Ed25519", "x": b64(vk[K_OTHER].as_bytes())},
+        {"kid": JWKS_DUP_KID, "kty": "OKP", "use": "sig", "alg": "EdDSA", "crv": "Ed25519", "x": b64(vk[K_DUP].as_bytes())},
+        {"kid": JWKS_ENC_KID, "kty": "OKP", "use": "enc", "alg": "EdDSA", "crv": "Ed25519", "x": b64(vk[K_ENC].as_bytes())},
+        {"kid": JWKS_MIS_KID, "kty": "OKP", "use": "sig", "alg": "ES256", "crv": "Ed25519", "x": b64(vk[K_MIS].as_bytes())}
     ]}).to_string();
     let ver_jwks = catch(|| {
         scion_sdk_utils::rustls::select_ring_crypto_provider();
@@ -1707,6 +1795,9 @@ fn main() {
         for h in &o.handler_obs {
             rep.hit(h);
         }
+        if c.kind.contains("/jwks kid=") {
+            rep.hit(&format!("{} -> {}", c.kind, o.imp.split(' ').take(2).collect::<Vec<_>>().join(" ")));
+        }
         if !o.parsed {
             rep.hit("harness reader: not a JWT");
         }
@@ -1752,8 +1843,18 @@ fn main() {
                     if i % stride != 0 && !c.kind.contains("valid") && !c.kind.contains("window") && !c.kind.contains("probe") {
                         continue;
                     }
-                    run_e2e(c, &env2, &e, &mut lean, &mut rep);
+                    run_e2e(c, Some(0), &env2, &e, &mut lean, &mut rep);
                     n += 1;
+                }
+                // header spellings around valid and invalid tokens
+                let picks: Vec<&Case> = sys.iter().filter(|c| c.kind.ends_with("/valid") || c.kind.contains("probe nbf") || c.kind.ends_with("alg=EdDSA/other-key")).collect();
+                for c in &picks {
+                    run_e2e(c, None, &env2, &e, &mut lean, &mut rep);
+                    n += 1;
+                    for i in 1..AUTH_SHAPES.len() {
+                        run_e2e(c, Some(i), &env2, &e, &mut lean, &mut rep);
+                        n += 1;
+                    }
                 }
                 rep.hit_n("e2e cases (real router: AuthMiddleware + register handler)", n);
             }
